@@ -256,3 +256,45 @@ def assume_unique_provenance(ctx: Ctx) -> None:
                 else:
                     ctx.unk(R, f, c, f'assume_unique={v[:60]}', key=key)
     ctx.require(n >= 8, 'assume_unique call sites')
+
+
+_AXIS_OF = {'_index': 'index', 'index': 'index', '_columns': 'columns', 'columns': 'columns'}
+
+
+def axis_crossing(ctx: Ctx) -> None:
+    R = 'I.axis-crossing'
+    ctx.rule(R, 'wherever a container\'s own axis labels (x._index / x.index, x._columns / x.columns) are related — equals, union / intersection / '
+             'difference / isin, IndexCorrespondence.from_correspondence, ==, !=, length comparison — to the `index` or `columns` parameter of the '
+             'function, it is the parameter of the same axis: the alignment shortcuts of reindex and concatenation never compare the row labels with '
+             'the requested columns or vice versa', floor=10)
+    prog = ctx.prog
+    n = 0
+    for f in prog.all_funcs():
+        if isinstance(f.node, ast.Lambda):
+            continue
+        top = f
+        while top.parent is not None:
+            top = top.parent
+        params = set(top.params) | set(f.params)
+        if not ({'index', 'columns'} & params):
+            continue
+        for c in walk_local(f.node):
+            pairs: tp.List[tp.Tuple[ast.expr, ast.expr]] = []
+            if isinstance(c, ast.Call) and isinstance(c.func, ast.Attribute) and c.func.attr in ('equals', 'union', 'intersection', 'difference', 'isin') and c.args:
+                pairs.append((c.func.value, c.args[0]))
+            if isinstance(c, ast.Call) and norm(c.func).endswith('from_correspondence') and len(c.args) == 2:
+                pairs.append((c.args[0], c.args[1]))
+            if isinstance(c, ast.Compare) and len(c.ops) == 1:
+                pairs.append((c.left, c.comparators[0]))
+            for a, b in pairs:
+                for x, y in ((a, b), (b, a)):
+                    xx = x.args[0] if isinstance(x, ast.Call) and norm(x.func) == 'len' and x.args else x
+                    yy = y.args[0] if isinstance(y, ast.Call) and norm(y.func) == 'len' and y.args else y
+                    if isinstance(xx, ast.Attribute) and xx.attr in _AXIS_OF and isinstance(yy, ast.Name) and yy.id in ('index', 'columns') and yy.id in params:
+                        n += 1
+                        good = _AXIS_OF[xx.attr] == yy.id
+                        key = f'{f.qualname.split(".", 1)[1]}:{norm(c)[:60]}'
+                        (ctx.ok if good else ctx.bad)(R, f, c, f'{norm(xx)} related to `{yy.id}`' if good else
+                                                      f'`{norm(c)[:70]}` relates the {_AXIS_OF[xx.attr]} labels `{norm(xx)}` to the `{yy.id}` argument: the two axes are crossed, '
+                                                      'so an alignment step is skipped or applied on the wrong axis', key=key)
+    ctx.require(n >= 10, 'axis-relational sites')
